@@ -13,7 +13,7 @@ def main():
     ap.add_argument("--replay", default=None)
     a = ap.parse_args()
     seed = int(os.environ.get("VERIF_SEED", "1") or "1")
-    ctx = vlib.Ctx(a.pid, a.tier, seed)
+    ctx = vlib.Ctx(a.pid, a.tier, seed, keep_replays=bool(a.replay))
     ctx.replay = a.replay
     mod = importlib.import_module("checks." + a.pid)
     try:
